@@ -702,6 +702,28 @@ func (e *Engine) call(fi *fnInfo, st *State, in *ssa.Call) []*State {
 		setRes(st, top)
 		return []*State{st}
 	}
+	if pi := e.bytePredicate(callee); pi.table != nil && pi.param < len(cc.Args) {
+		// a pure predicate over one byte: treated like a [256]bool table indexed by the argument
+		arg := cc.Args[pi.param]
+		set := e.eval(st, arg).byteSet()
+		allT, allF := true, true
+		for _, bb := range set.members() {
+			if pi.table[bb] {
+				allF = false
+			} else {
+				allT = false
+			}
+		}
+		switch {
+		case allT:
+			setRes(st, boolVal(true))
+		case allF:
+			setRes(st, boolVal(false))
+		default:
+			setRes(st, AbsVal{k: vTable, table: pi.table, tabX: arg})
+		}
+		return []*State{st}
+	}
 	switch callee.Name() {
 	case "NewErrorLexer", "NewError":
 		setRes(st, intVal(1))
